@@ -10,6 +10,41 @@ CHECKS = {
    note="trusted: the []bool model and MSB-first packing rule in props/c18.go; operations used inside their documented domain",
    ref="C18"),
 }
+CHECKS["C17"] = dict(
+   technique="reference-model monitor: exhaustive operand-pair comparison with carry-less reference arithmetic; RS histories checked by root evaluation; cache-invariant hook evaluated under the cache's own lock",
+   text="Exploration, exhaustive for the finite part: all operand pairs of all 7 constructed fields (3.4e7 products, divisions, inverses) against table-free reference arithmetic; all triples of the fields up to 256 elements for associativity (thorough; sampled in quick and for GF(1024)/GF(4096)); random/structured polynomials; RS encoder histories with check counts 1..600 in ascending/descending/random/repeated order, verified by evaluating data||check at the required roots, with the verif hook asserting the generator-polynomial cache invariant under the lock.",
+   note="trusted: shift-and-xor reference arithmetic in refdec/gf.go; don't-care: division by zero, Invers(0), zero check symbols",
+   ref="C17")
+CHECKS["C05"] = dict(
+   technique="reference-decoder monitor: independent Code 128 reader (ISO 15417 pattern table, code sets A/B/C, shifts, FNC1-4, modulo-103) run on every symbol the real encoder emits",
+   text="Exploration: all sequences over six character classes up to length 5 (quick) / 7 (thorough) with two random representatives each, digit runs 1..12 with FNC1 at every offset, every single character, length boundaries, random long mixes, both checksum variants; each accepted symbol is decoded from its pixels and compared with the content.",
+   note="trusted: 107-pattern table and code-set semantics written from ISO/IEC 15417 in refdec/onedim.go",
+   ref="C05")
+CHECKS["C06"] = dict(
+   technique="reference-decoder monitor + exhaustive enumeration of the EAN-8 input space (thorough)",
+   text="Exploration; exhaustive for EAN-8 in the thorough tier (all 1e7 seven-digit and all 1e8 eight-digit strings). Acceptance rule, completed Content(), kind, module count, guard bars and L/G/R/parity decode are checked against an independent GS1 model for every input; quick uses 2e5 random numbers, the 1200-cell (first digit, position, digit) covering set and malformed strings.",
+   note="trusted: GS1 L table / parity words / modulo-10 rule in refdec/onedim.go",
+   ref="C06")
+CHECKS["C07"] = dict(
+   technique="reference-decoder monitor: Code 39 / Code 93 readers built from the symbologies' construction rules, run on every emitted symbol in every option mix",
+   text="Exploration, exhaustive for lengths 0..2 over ASCII 0..127 in all 2x2x2 option mixes (length 3 over the 43-character alphabet in thorough) plus random texts up to 60 characters (weight wrap-around); check characters must be present exactly when requested and correct, full-ASCII shift pairs must resolve to the text.",
+   note="trusted: construction-rule tables in refdec/onedim.go; don't-care: FNC placeholder runes in basic-mode Code 93 content",
+   ref="C07")
+CHECKS["C08"] = dict(
+   technique="reference-decoder monitor: narrow/wide readers for Codabar, standard and interleaved 2 of 5; arithmetic oracle for AddCheckSum",
+   text="Exploration, exhaustive for short inputs: all Codabar strings over its 20 characters to length 4 (quick) / 6 (thorough) with the accept-iff rule as part of the oracle, all digit strings to length 5 / 7 for both 2-of-5 variants and AddCheckSum, random long strings, hostile runes.",
+   note="trusted: AIM pattern tables in refdec/onedim.go",
+   ref="C08")
+CHECKS["C09"] = dict(
+   technique="reference-model monitor: executable pixel model of Scale evaluated on the source's own pixel grid; every pixel of every result compared",
+   text="Exploration: sources from all eleven families under several colour schemes, full (w,h) windows for small symbols and boundary grids for large ones, eight fill colours over five colour models, chains of up to three scalings; acceptance rule, bounds, centring within one pixel, block replication, fill, Content/Metadata/CheckSum pass-through.",
+   note="trusted: the model in props/c09.go (factor = largest integer that fits; offset floor or ceil of the exact centre)",
+   ref="C09")
+CHECKS["C14"] = dict(
+   technique="reference-decoder monitor: CheckSum() compared with the check value computed from the decoded symbol, before and after 1..3 rounds of Scale",
+   text="Exploration: random EAN inputs of all four lengths, Code 128 contents over all classes, Code 39 contents in all option mixes plus all two-character texts; the drawn check character must carry the reported value.",
+   note="trusted: the 1D reference decoders; Code 39 check value defined over the expanded data characters",
+   ref="C14")
 PENDING = {}
 
 def main():
